@@ -2,21 +2,10 @@
     computes exactly the reference semantics (Spec/Peg.v): verdict, end position, live tokens
     = post-order of the derivation forest, maxToken = first-furthest fold over the attempt's
     events; the memo table stays justified and absorbed. *)
-From PegV Require Import Base.Tac Base.ListX Spec.Syntax Spec.Peg Model.Machine Proofs.PegFacts.
+From PegV Require Import Base.Tac Base.ListX Spec.Syntax Spec.Peg Spec.WF Model.Machine Proofs.PegFacts.
 
 Arguments live : simpl never.
 Arguments flat : simpl never.
-
-(** expressions the default generator emits checks for: no switch nodes, literals below the sentinel *)
-Fixpoint expr_ok (e : expr) : bool :=
-  match e with
-  | EChar c => Z.ltb c endSymbol
-  | ERange lo hi => Z.ltb hi endSymbol
-  | ESeq es | EAlt es => forallb expr_ok es
-  | EAnd e1 | ENot e1 | EQuery e1 | EStar e1 | EPlus e1 | EPush e1 => expr_ok e1
-  | ESwitch _ _ => false
-  | _ => true
-  end.
 
 Lemma set_at_firstn l : forall i (x : tok), i <= length l -> firstn (S i) (set_at l i x) = firstn i l ++ [x].
 Proof.
